@@ -92,10 +92,11 @@ theorem all_methods_same_distance :
   · match opts, hlen with
     | [a0, a1, a2, a3, a4, a5, a6, a7, a8], _ => simp [OptExpr.eval, Gen.depthIndex]
 
-/-- the options tuple built in `Logger.__init__` is the one `_log` unpacks; `depth` sits in the same
-slot there, in `Catcher.__exit__`'s unpacking and in its `catch_options` -/
+/-- the options tuple built in `Logger.__init__` has the arity `_log` unpacks; the slot that receives
+`opt(depth=…)` is the slot `_log` reads as depth, and `depth` sits in the same slot in `Catcher.__exit__`'s unpacking and in its `catch_options` -/
 theorem options_layout_consistent :
-    Gen.initOptionNames = Gen.optionNames ∧ Gen.optionNames.length = 9 ∧
+    Gen.initOptionNames.length = Gen.optionNames.length ∧ Gen.initDepthIndex = Gen.depthIndex ∧
+    Gen.optionNames.length = 9 ∧
     Gen.optionNames[Gen.depthIndex]? = some "depth".toList ∧
     catchUnpackDepthIdx = some Gen.depthIndex ∧ catchRepackDepthIdx = some Gen.depthIndex ∧
     Gen.catchUnpackPrefix.length = Gen.catchRepackPrefix.length := by decide
@@ -105,7 +106,14 @@ theorem frame_constants (depth : Int) :
     Gen.frameIndex depth = depth + 2 ∧ Gen.catchDepth true 0 depth = depth + 1 ∧
     Gen.catchDepth false 0 depth = depth ∧ Gen.catchDepth false 1 depth = depth + 1 ∧
     Gen.exitFramesDefault = 0 := by
-  simp [Gen.frameIndex, Gen.catchDepth, Gen.exitFramesDefault]
+  refine ⟨?_, ?_, ?_, ?_, by decide⟩
+  · unfold Gen.frameIndex; omega
+  all_goals (unfold Gen.catchDepth; first | omega | (simp; done) | (simp; omega))
+
+/-- the decorator increment and `_frames` for arbitrary arguments -/
+theorem catchDepth_eq (fd : Bool) (fr depth : Int) :
+    Gen.catchDepth fd fr depth = depth + (if fd then 1 else 0) + fr := by
+  cases fd <;> unfold Gen.catchDepth <;> first | omega | (simp; done) | (simp; omega)
 
 /-! ### the property, per entry point -/
 
@@ -123,7 +131,7 @@ theorem frame_is_caller_plus_depth (lib : Str → Frame) (m : MethodRow) (hm : m
   rw [← List.cons_append]
   apply logCore_selects (depth := (d : Int)) (d := d) (hf := hf)
   · exact ⟨hl, by simpa [Gen.depthIndex, hopt.2] using hk⟩
-  · simp [Gen.frameIndex, h1]; omega
+  · rw [(frame_constants (d : Int)).1]; simp [h1]; omega
 
 /-- … and beyond the stack the placeholders are used instead of failing -/
 theorem beyond_stack_placeholders (lib : Str → Frame) (m : MethodRow) (hm : m ∈ Gen.methods)
@@ -137,7 +145,7 @@ theorem beyond_stack_placeholders (lib : Str → Frame) (m : MethodRow) (hm : m 
   rw [← List.cons_append]
   apply logCore_beyond (depth := (d : Int)) (d := d) (hbeyond := hbeyond)
   · exact ⟨hl, by simpa [Gen.depthIndex, hopt.2] using hk⟩
-  · simp [Gen.frameIndex, h1]; omega
+  · rw [(frame_constants (d : Int)).1]; simp [h1]; omega
 
 /-- a selected frame whose globals have no `__name__` (or `None`): `name` is `None`, every other
 field still identifies the frame, nothing fails -/
@@ -169,7 +177,7 @@ def catch_all_shapes_statement : Prop :=
 
 theorem catchOptions_ok (fd : Bool) (fr a0 d a2 a3 a4 a5 a6 a7 a8 : Int) :
     catchOptions fd fr [a0, d, a2, a3, a4, a5, a6, a7, a8] = .ok [1, Gen.catchDepth fd fr d, 1, a3, a4, a5, a6, a7, a8] := by
-  obtain ⟨_, _, _, hi, hj, _⟩ := options_layout_consistent
+  obtain ⟨_, _, _, _, hi, hj, _⟩ := options_layout_consistent
   have hn : Gen.catchUnpackPrefix.length = 3 := by decide
   have hn' : Gen.catchRepackPrefix.length = 3 := by decide
   simp [catchOptions, hi, hj, hn, hn', Gen.depthIndex, List.range, List.range.loop]
@@ -188,7 +196,9 @@ theorem catch_all_shapes : catch_all_shapes_statement := by
     rw [← List.cons_append]
     apply logCore_selects (depth := Gen.catchDepth w.fromDecorator w.frames (d : Int)) (d := d) (hf := hf)
     · exact ⟨rfl, rfl⟩
-    · simp only [Gen.frameIndex, Gen.catchDepth, List.length_cons, List.length_map]
+    · have hfi := (frame_constants (Gen.catchDepth w.fromDecorator w.frames (d : Int))).1
+      rw [hfi, catchDepth_eq]
+      simp only [List.length_cons, List.length_map]
       cases hfd : w.fromDecorator <;> simp [hfd] at hbal ⊢ <;> omega
 
 theorem catch_identifies_user_frame (lib : Str → Frame) (w : CatchRow) (hw : w ∈ Gen.catchRows)
@@ -213,7 +223,9 @@ theorem catch_beyond_stack_placeholders (lib : Str → Frame) (w : CatchRow) (hw
     rw [← List.cons_append]
     apply logCore_beyond (depth := Gen.catchDepth w.fromDecorator w.frames (d : Int)) (d := d) (hbeyond := hbeyond)
     · exact ⟨rfl, rfl⟩
-    · simp only [Gen.frameIndex, Gen.catchDepth, List.length_cons, List.length_map]
+    · have hfi := (frame_constants (Gen.catchDepth w.fromDecorator w.frames (d : Int))).1
+      rw [hfi, catchDepth_eq]
+      simp only [List.length_cons, List.length_map]
       cases hfd : w.fromDecorator <;> simp [hfd] at hbal ⊢ <;> omega
 
 /-- DESIGN names: catch() as a decorator identifies the caller of the decorated function … -/
